@@ -1,6 +1,7 @@
 package props
 
 import (
+	"bytes"
 	"fmt"
 	"go/ast"
 	"go/parser"
@@ -305,4 +306,36 @@ func deepDepths() []int {
 		d = append(d, i)
 	}
 	return append(d, 44, 48, 56, 63, 64, 65, 80, 100)
+}
+
+
+// pointerOffsetBuffers: label buffers in which a compression pointer refers to a name that starts at offset X, for X
+// around every power of two up to the 14 bits a pointer can hold (and a few in between): filler names up to X, the
+// target name at X, then a name that ends in a pointer to X and a bare pointer to X. STRICT by construction.
+func pointerOffsetBuffers() [][]byte {
+	var out [][]byte
+	for _, x := range []int{5, 62, 63, 64, 127, 128, 129, 255, 256, 257, 300, 511, 512, 513, 1000, 1023, 1024, 1025, 2047, 2048, 2049, 3000, 4095, 4096, 8191, 8192, 0x3ffe, 0x3fff} {
+		var b []byte
+		k := 0
+		for len(b) < x { // filler names: label lengths chosen so that the target lands exactly on offset X
+			rest := x - len(b)
+			l := min(rest-2, 20+k%11)
+			if rest-2-l == 1 || rest-2-l == 2 {
+				l -= 2
+			}
+			if l <= 0 {
+				break
+			}
+			b = append(append(append(b, byte(l)), bytes.Repeat([]byte{byte('a' + k%26)}, l)...), 0)
+			k++
+		}
+		if len(b) != x {
+			continue
+		}
+		b = append(b, 6, 't', 'a', 'r', 'g', 'e', 't', 3, 'o', 'r', 'g', 0)
+		b = append(b, 3, 'w', 'w', 'w', 0xC0|byte(x>>8), byte(x))
+		b = append(b, 0xC0|byte(x>>8), byte(x))
+		out = append(out, b)
+	}
+	return out
 }
